@@ -259,7 +259,7 @@ class C12(Check):
                'switches', len(sched.switches), 'inter', inter)
         for name in names:
             if name in sched.errors:
-                res.violate('C12/thread-raised:%s' % type(sched.errors[name]).__name__,
+                res.violate(('C12/deadlock' if type(sched.errors[name]).__name__ == 'SimDeadlock' else 'C12/thread-raised:%s' % type(sched.errors[name]).__name__),
                             '%s: %r escaped the harness task' % (name, sched.errors[name]))
                 continue
             g, e = got.get(name), expected[name]
